@@ -23,7 +23,7 @@ from sim import pool as simpool
 from sim.core import (Chooser, EventLog, HarnessError, Violation, arr_digest,
                       canon, rel_err, seed_tempfile, sha, stream)
 from sim.disk import SimDisk
-from sim.harness import _recv, _send
+from sim.harness import _recv, _recv_deadline, _send
 
 PROP = "C14"
 _ref = {}
@@ -252,7 +252,7 @@ def lane_init(ctx):
     os.close(q_r)
     os.close(a_w)
     _ref.update(pid=pid, q_w=q_w, a_r=a_r)
-    msg = _recv(a_r)
+    msg = _recv_deadline(a_r, 600, "the reference zygote at start-up")
     if msg != "ready":
         raise RuntimeError("reference zygote failed: " + str(msg))
 
@@ -338,7 +338,7 @@ def pre_job(job, ctx):
     if job.get("kind", "run") != "run":
         return job
     _send(_ref["q_w"], job["record"]["world"])
-    ref = _recv(_ref["a_r"])
+    ref = _recv_deadline(_ref["a_r"], 900, "the reference zygote")
     return dict(job, ref=ref)
 
 
